@@ -338,6 +338,13 @@ func classify(b Batch, how string, pre, post map[string]exp, act map[string]val)
 			groups[op.Group] = true
 		}
 	}
+	// series the batch names, with the group of the naming operation
+	target := map[string]string{}
+	for _, op := range b.Ops {
+		if op.Action != "expire" && op.Name != "" {
+			target[keyOf(op.Name, append(append([][]string{}, op.Labels...), []string{"hook", b.Hook}))] = op.Group
+		}
+	}
 	keys := map[string]bool{}
 	for k := range post {
 		keys[k] = true
@@ -353,9 +360,11 @@ func classify(b Batch, how string, pre, post map[string]exp, act map[string]val)
 			continue
 		}
 		p, inPre := pre[k]
+		tg, named := target[k]
 		name := metricName(k)
 		var class string
 		switch {
+		// input classes of known defects first (tags computed by TLC)
 		case shape[k]:
 			class = "ungrouped-label-names-differ"
 		case in(b.Mixed, name):
@@ -364,29 +373,32 @@ func classify(b Batch, how string, pre, post map[string]exp, act map[string]val)
 			class = "grouped-add-shortcut-doubled"
 		case inPost && inAct && w.Kind == "counter" && w.Group != "" && in(b.Frac, name) && a.Kind == "counter":
 			class = "grouped-counter-fraction"
-		case inPre && !inPost && inAct && groups[p.Group]:
+		// a series that must not be there
+		case !inPost && inPre && groups[p.Group]:
 			class = "group-replaced/stale-series"
-		case inPost && !inAct && w.Group != "":
-			class = "group-replaced/series-missing"
-		case inPre && inPost && p == w && !inAct:
-			class = "others-untouched/series-removed"
-		case inPre && inPost && p == w && inAct:
-			class = "others-untouched/series-changed"
-		case inPost && !inAct:
-			class = "ungrouped/series-missing"
-		case !inPost && inAct && !inPre:
+		case !inPost && named && tg != "":
+			class = "group-replaced/expired-series-present"
+		case !inPost:
 			class = "unexpected-series"
-		case !inPost && inAct:
-			class = "series-not-removed"
-		case a.Kind != w.Kind:
-			class = "kind"
+		// a series of a group this batch replaces
+		case groups[w.Group] && !inAct:
+			class = "group-replaced/series-missing"
+		case groups[w.Group] && a.Kind != w.Kind:
+			class = "group-replaced/kind"
+		case groups[w.Group]:
+			class = "group-replaced/value/" + w.Kind
+		// an ungrouped series the batch names
+		case w.Group == "" && named && !inAct:
+			class = "ungrouped/series-missing"
+		case w.Group == "" && named && a.Kind != w.Kind:
+			class = "ungrouped/kind"
+		case w.Group == "" && named:
+			class = "ungrouped/value/" + w.Kind
+		// everything else had to stay as it was
+		case !inAct:
+			class = "others-untouched/series-removed"
 		default:
-			class = "value/" + w.Kind
-			if w.Group != "" {
-				class += "/grouped"
-			} else {
-				class += "/ungrouped"
-			}
+			class = "others-untouched/series-changed"
 		}
 		if _, ok := out[class]; !ok || k < out[class] {
 			out[class] = k
